@@ -57,9 +57,4 @@ Definition known_dd (db : list quad) : bool := existsb known_dd_quad db.
    starts and ends with a quote *)
 Definition dd_ttl_term (v : str) : bool := starts_with [cDQ] v && ends_with [cDQ] v.
 Definition known_dd_ttl (db : list quad) : bool := existsb (fun q => is_default q && dd_ttl_term (qd_o q)) db.
-(* Turtle: an object whose written text (quotes and escapes included) contains both "{|" and "|}" is taken for an
-   annotation block by parse_turtle *)
-Definition annot_text (text : str) : bool := contains sANN_OPEN text && contains sANN_CLOSE text.
-Definition known_ttl_annot (db : list quad) : bool :=
-  existsb (fun q => is_default q && annot_text (ttl_obj (qd_o q))) db.
-Definition known_ttl (db : list quad) : bool := known_dd_ttl db || known_ttl_annot db.
+Definition known_ttl (db : list quad) : bool := known_dd_ttl db.
